@@ -16,9 +16,11 @@ import (
 	"errors"
 	"fmt"
 	"io"
+	"runtime"
 	"sort"
 	"strings"
 	"sync"
+	"sync/atomic"
 	"testing"
 	"testing/synctest"
 	"time"
@@ -141,6 +143,8 @@ func runEndpoint(c *vh.Ctx, rp Replay) (string, bool) {
 // CLOSED with writes refused (C18_transitions / C18_write_refused_after_half_close
 // hold for every interleaving, so the unchanged code can never fail this).
 
+var stressSink atomic.Int64
+
 func runStress(c *vh.Ctx, rp Replay) {
 	m := stream.NewManager(stream.DefaultManagerConfig(), identity.AgentID{1})
 	defer m.Close()
@@ -161,24 +165,33 @@ func runStress(c *vh.Ctx, rp Replay) {
 		}()
 		<-readerParked
 		time.Sleep(20 * time.Microsecond) // let the reader reach its select
+		// both calls are released together by a spin barrier, with a sweeping skew
 		var wg sync.WaitGroup
-		start := make(chan struct{})
+		var armed atomic.Int32
+		var goFlag atomic.Bool
 		wg.Add(2)
-		go func() {
+		run := func(skew int, f func()) {
 			defer wg.Done()
-			<-start
-			m.HandleStreamData(id, protocol.FlagFinWrite, nil)
-		}()
-		go func() {
-			defer wg.Done()
-			<-start
+			armed.Add(1)
+			for !goFlag.Load() {
+			}
+			for k := 0; k < skew; k++ {
+				stressSink.Add(1)
+			}
+			f()
+		}
+		go run(0, func() { m.HandleStreamData(id, protocol.FlagFinWrite, nil) })
+		go run(round%48, func() {
 			if rp.Stress == "close" {
 				s.Close()
 			} else {
 				s.CloseWrite()
 			}
-		}()
-		close(start)
+		})
+		for armed.Load() != 2 {
+			runtime.Gosched()
+		}
+		goFlag.Store(true)
 		wg.Wait()
 		st := s.State()
 		if st != stream.StateClosed || s.CanWrite() {
@@ -820,8 +833,8 @@ func TestVerif(t *testing.T) {
 				xcoq = append(xcoq, s)
 			}
 		}
-		runStress(c, Replay{Name: "fin-vs-closewrite", Stress: "closewrite", Rounds: c.N(400, 20000)})
-		runStress(c, Replay{Name: "fin-vs-close", Stress: "close", Rounds: c.N(400, 20000)})
+		runStress(c, Replay{Name: "fin-vs-closewrite", Stress: "closewrite", Rounds: c.N(2000, 40000)})
+		runStress(c, Replay{Name: "fin-vs-close", Stress: "close", Rounds: c.N(2000, 40000)})
 	}
 	var sb strings.Builder
 	sb.WriteString("From Coq Require Import List NArith Bool.\nFrom MM Require Import Model.Stream.\nImport ListNotations.\nLocal Open Scope N_scope.\n")
